@@ -229,6 +229,8 @@ pub type DecRes = Option<Result<(DecapStatus, usize), (DecapError, usize)>>;
 
 /// What the caller got out of a decap call (for drivers).
 pub struct RxOut {
+    /// the `res` object exactly as logged in the event
+    pub jres: String,
     pub res: DecRes,
     /// buffer handed to the caller (completed result or error value)
     pub returned: Option<Box<[u8]>>,
@@ -369,7 +371,7 @@ impl<C: CrcCalculator> Rx<C> {
             }
             Some(Err(x)) => Some(Err(x)),
         };
-        RxOut { res: res2, returned, consumed }
+        RxOut { jres, res: res2, returned, consumed }
     }
 
     pub fn ev_peek(&mut self, out: &mut Out, bytes: &[u8], enc: bool) {
